@@ -203,6 +203,14 @@ theorem stopRet_inv {x : Inst} (inv : LInv x) (hs : x.stopPendingTrans = false) 
   case ctxLive => exact c13
   all_goals simp_all [b2n, o2n]
 
+/-- A stop call that found the election already stopped (e.ctx == nil) did nothing. -/
+theorem rollback_inv {x : Inst} (inv : LInv x) (h5 : x.state = 5) (hf : x.flag = false) (hp : x.pendingFlag = none) (n : Nat) :
+    LInv { x with stops := x.stops.filter (·.n ≠ n), stopPendingTrans := false } := by
+  obtain ⟨c1, c2, c3, c4, c5, c6, c7, c8, c9, c10, c11, c12, c13⟩ := inv
+  constructor
+  case ctxLive => exact c13
+  all_goals simp_all [b2n, o2n]
+
 def SysInv (s : Sys) : Prop := ∀ x ∈ s.st.insts, LInv x
 
 theorem get_mem {st : State} {i : Nat} {x : Inst} (h : st.get i = some x) : x ∈ st.insts :=
@@ -280,21 +288,29 @@ theorem step_inv {s s' : Sys} {e : TEv} (inv : SysInv s) (h : step s e = .ok s')
         · -- stop returns
           split at h
           · split at h
-            · cases h
-            · rename_i hg
-              simp only [not_or, Bool.not_eq_true] at hg
+            · rename_i hrb
               cases h
-              exact set_inv inv (stopRet_inv hxi (by simpa using hg.2) _ _)
+              exact set_inv inv (rollback_inv hxi hrb.2.2.1 hrb.2.2.2.1 hrb.2.2.2.2 _)
+            · split at h
+              · cases h
+              · rename_i hg
+                simp only [not_or, Bool.not_eq_true] at hg
+                cases h
+                exact set_inv inv (stopRet_inv hxi (by simpa using hg.2) _ _)
           · split at h
             · cases h; exact inv
             · cases h
         · split at h
           · split at h
-            · cases h
-            · rename_i hg
-              simp only [not_or, Bool.not_eq_true] at hg
+            · rename_i hrb
               cases h
-              exact set_inv inv (stopRet_inv hxi (by simpa using hg.2) _ _)
+              exact set_inv inv (rollback_inv hxi hrb.2.2.1 hrb.2.2.2.1 hrb.2.2.2.2 _)
+            · split at h
+              · cases h
+              · rename_i hg
+                simp only [not_or, Bool.not_eq_true] at hg
+                cases h
+                exact set_inv inv (stopRet_inv hxi (by simpa using hg.2) _ _)
           · split at h
             · cases h; exact inv
             · cases h
